@@ -151,7 +151,7 @@ fn import_extension_fields(node: &mut Node, doc: &mut RustDocument, base_fields:
             .ok_or_else(|| WriterError::attribute_missing(node, "base"))?;
         let (xml_name, namespace_abbreviation) = resolve_type(xml_name, doc);
         let base_node = doc
-            .find_node_by_xml_name(node, xml_name, namespace_abbreviation.as_deref())
+            .find_type_by_xml_name(node, xml_name, namespace_abbreviation.as_deref())
             .ok_or_else(|| WriterError::NodeNotFound(xml_name.to_string()))?;
 
         match &base_node.rust_type {
